@@ -15,6 +15,8 @@
 package ggql
 
 import (
+	"fmt"
+	"math"
 	"strconv"
 )
 
@@ -62,9 +64,9 @@ func (t *floatScalar) CoerceOut(v interface{}) (interface{}, error) {
 	case nil:
 		// remains nil
 	case float32:
-		// ok as is
+		v, err = floatFromFloat64(float64(tv))
 	case float64:
-		v = float32(tv)
+		v, err = floatFromFloat64(tv)
 	case int:
 		v = float32(tv)
 	case int8:
@@ -88,11 +90,21 @@ func (t *floatScalar) CoerceOut(v interface{}) (interface{}, error) {
 	case string:
 		var f float64
 		if f, err = strconv.ParseFloat(tv, 64); err == nil {
-			v = float32(f)
+			v, err = floatFromFloat64(f)
 		}
 	default:
 		v = nil
 		err = newCoerceErr(tv, "Float")
 	}
 	return v, err
+}
+
+// floatFromFloat64 converts to the float32 used for the Float scalar. NaN,
+// infinity and values beyond the float32 range can not be represented as a
+// (JSON) number and are reported instead.
+func floatFromFloat64(f float64) (interface{}, error) {
+	if math.IsNaN(f) || math.IsInf(f, 0) || math.IsInf(float64(float32(f)), 0) {
+		return nil, fmt.Errorf("%w %v into a Float, out of range", ErrCoerce, f)
+	}
+	return float32(f), nil
 }
